@@ -78,7 +78,22 @@ type Backend struct {
 	// RunWait runs a WaitForVersionChange that the model expects to return at once; it reports the
 	// result and whether the call returned (false = it is parked although it must not be).
 	RunWait func(key, ver string) (err error, returned bool)
+	// Tick (optional) lets a few milliseconds of the backend's clock pass: called after writes of records whose
+	// expiry already lies in the past (on a real Redis server such a key lives for 1 ms; miniredis has no clock
+	// of its own).
+	Tick func()
+	// StoredTTL (optional, Redis) reports what the server holds for key: presence and remaining time to live
+	// (0 = no expiry).
+	StoredTTL func(key string) (ttl time.Duration, present bool)
 }
+
+// Never1 and Never2 are expiry selectors for instants far beyond any clock movement of a sequence: the year 2300
+// and the last second of the year 9999 ("never" sentinels of applications; both lie beyond the int64 nanosecond
+// range that ends in 2262).
+const (
+	Never1 = 1 << 20
+	Never2 = 1<<20 + 1
+)
 
 type mrec struct {
 	val      []byte
@@ -155,6 +170,9 @@ func (m *Model) StateKey() string {
 		e := "-"
 		if r.hasExp {
 			e = fmt.Sprint(r.expHalf - m.clockHalf)
+			if r.expHalf == 1<<60 {
+				e = "never"
+			}
 		}
 		fmt.Fprintf(&sb, "%s:%s:%q:%s:%s;", k, st, r.val, e, r.lastW)
 	}
@@ -164,6 +182,13 @@ func (m *Model) StateKey() string {
 func (m *Model) expiry(exp int) (has bool, half int64, at *time.Time) {
 	if exp == 0 {
 		return false, 0, nil
+	}
+	if exp == Never1 || exp == Never2 {
+		t := time.Date(2300, 1, 1, 0, 0, 0, 0, time.UTC)
+		if exp == Never2 {
+			t = time.Date(9999, 12, 31, 23, 59, 59, 0, time.UTC)
+		}
+		return true, 1 << 60, &t
 	}
 	var h int64
 	if exp > 0 {
@@ -350,6 +375,74 @@ func (m *Model) checkRecord(be, reader, key string, r *mrec, got kvs.Record) *Vi
 // Step applies o to the backend and to the model and returns the first divergence. Calls run under
 // recover; a panic is a divergence.
 func (m *Model) Step(o Op) (vio *Vio) {
+	vio = m.step(o)
+	if vio != nil {
+		return vio
+	}
+	if m.be.Tick != nil {
+		past := o.Exp < 0
+		for _, e := range o.Exps {
+			past = past || e < 0
+		}
+		if past && (o.K == "Put" || o.K == "PutMany" || o.K == "Cas" || o.K == "Create") {
+			m.be.Tick()
+		}
+	}
+	return m.checkStored(o)
+}
+
+// checkStored compares, for every key the operation wrote, what the server holds with what was given: the key is
+// there and it has a time to live iff the record was given an expiry, of about the given length.
+func (m *Model) checkStored(o Op) *Vio {
+	if m.be.StoredTTL == nil {
+		return nil
+	}
+	switch o.K {
+	case "Put", "PutMany", "Cas", "Create":
+	default:
+		return nil
+	}
+	keys := o.Keys
+	if o.Key != "" {
+		keys = []string{o.Key}
+	}
+	u := m.be.Unit
+	if u == 0 {
+		u = Unit
+	}
+	for _, k := range keys {
+		r := m.present(k)
+		if r == nil {
+			continue
+		}
+		ttl, ok := m.be.StoredTTL(k)
+		if !ok {
+			return &Vio{m.be.Name + "/" + o.K + "/stored/absent", fmt.Sprintf("after %s the key %q is present by contract but the server does not hold it", o, k)}
+		}
+		if !r.hasExp {
+			if ttl != 0 {
+				return &Vio{m.be.Name + "/" + o.K + "/stored/ttl-without-expiry", fmt.Sprintf("after %s the record of %q was last written (%s) without an expiry but the server holds it with a time to live of %v", o, k, r.lastW, ttl)}
+			}
+			continue
+		}
+		if ttl == 0 {
+			return &Vio{m.be.Name + "/" + o.K + "/stored/expiry-without-ttl", fmt.Sprintf("after %s the record of %q was last written (%s) with an expiry but the server holds it without a time to live", o, k, r.lastW)}
+		}
+		if r.expHalf == 1<<60 {
+			if ttl < 200*365*24*time.Hour {
+				return &Vio{m.be.Name + "/" + o.K + "/stored/ttl-differs", fmt.Sprintf("after %s the record of %q was last written (%s) with an expiry centuries away but the server's time to live is %v", o, k, r.lastW, ttl)}
+			}
+			continue
+		}
+		want := time.Duration(r.expHalf-m.clockHalf) * (u / 2)
+		if d := ttl - want; d > u/4 || d < -u/4 {
+			return &Vio{m.be.Name + "/" + o.K + "/stored/ttl-differs", fmt.Sprintf("after %s the record of %q was last written (%s) with an expiry %v ahead but the server's time to live is %v", o, k, r.lastW, want, ttl)}
+		}
+	}
+	return nil
+}
+
+func (m *Model) step(o Op) (vio *Vio) {
 	be := m.be.Name
 	ctx := context.Background()
 	expiredTouch := ""
